@@ -57,9 +57,9 @@ func (a *chunkError) unmarshal(raw []byte) error {
 		return fmt.Errorf("%w, actually is %s", ErrChunkTypeNotCtError, a.typ.String())
 	}
 
-	offset := chunkHeaderSize
-	for len(raw)-offset >= 4 {
-		e, err := buildErrorCause(raw[offset:])
+	offset := 0
+	for len(a.raw)-offset >= 4 {
+		e, err := buildErrorCause(a.raw[offset:])
 		if err != nil {
 			return fmt.Errorf("%w: %v", ErrBuildErrorChunkFailed, err) //nolint:errorlint
 		}
